@@ -8,7 +8,7 @@ EXPLANATION = "see DESIGN.md C19"
 
 
 def units(tier):
-    return [F.U_HILL, F.U_COUNT_ATOMS, F.U_ATOMS]
+    return [F.U_HILL, F.U_HILL_NOTATION, F.L_DEN_PERMUTATION, F.U_COUNT_ATOMS, F.U_ATOMS] + F.U_FORMULA_KINDS
 
 
 def runner_tasks(tier):
